@@ -271,6 +271,67 @@ def scenario_values(s, seed, n):
     return {"bad": bad, "kinds": dict(kinds), "n": n}
 
 
+def make_versioned(methods, const):
+    """A class statement executed more than once in a process (a class factory, a reloaded module): every result has the
+    SAME module and qualified name but its own methods and constants."""
+    from qmi.core.rpc import QMI_RpcObject, rpc_method
+    ns = {"CONST": const}
+    for m in methods:
+        def f(self, x=0, _m=m, _c=const):
+            return (_m, _c, x)
+        f.__name__ = m
+        f.__qualname__ = "make_versioned.<locals>.Dev.%s" % m
+        ns[m] = rpc_method(f)
+    cls = type("Dev", (QMI_RpcObject,), ns)
+    cls.__qualname__ = "make_versioned.<locals>.Dev"
+    return cls
+
+
+def scenario_redefined(s, seed):
+    """direct vs proxy when classes of one qualified name but different interfaces live in one process, one after
+    the other or side by side (multi-step history)."""
+    import random
+    logging.disable(logging.CRITICAL)
+    from qmi.core.context import QMI_Context
+    from qmi.core.config_defs import CfgQmi, CfgContext
+    rng = random.Random(seed)
+    cfg = CfgQmi(contexts={"srv": CfgContext(tcp_server_port=5001)})
+    srv = QMI_Context("srv", cfg)
+    srv.start()
+    cl = QMI_Context("cl", cfg)
+    cl.start()
+    cl.connect_to_peer("srv", "127.0.0.1:5001")
+    pool = ["alpha", "beta", "gamma", "delta"]
+    bad, n = [], 0
+    for ver in range(rng.randint(2, 4)):
+        methods = sorted(rng.sample(pool, rng.randint(1, 3)))
+        cls = make_versioned(methods, ver + 1)
+        name = "dev%d" % ver
+        lp = srv.make_rpc_object(name, cls)
+        rp = cl.get_rpc_object_by_name("srv." + name)
+        plain = cls.__new__(cls)
+        for place, proxy in (("local", lp), ("remote", rp)):
+            for m in pool:
+                n += 1
+
+                def outcome(obj):
+                    try:
+                        a = getattr(obj, m)
+                        return ("value", a(7) if m != "CONST" else a)
+                    except AttributeError:
+                        return ("no-such-attribute",)
+                    except BaseException as e:  # noqa
+                        return ("exception", type(e).__name__)
+                d, r = outcome(plain), outcome(proxy)
+                if d != r:
+                    bad.append({"version": ver, "methods": methods, "place": place, "name": m, "direct": repr(d), "proxy": repr(r)})
+        if rng.random() < 0.5:
+            srv.remove_rpc_object(lp)
+    cl.stop()
+    srv.stop()
+    return {"bad": bad, "n": n}
+
+
 def scenario_concurrent(s, seed, nthreads, ncalls):
     """concurrent callers with distinguishable arguments: each gets its own outcome."""
     import random
@@ -640,6 +701,22 @@ def run(ck):
         for b in res["obs"]["bad"][:3]:
             ck.report("oracle:value:%s:%s" % (b["mode"], b["place"]), "proxy call differs from the direct call: direct %s, proxy %s" % (b["direct"], b["proxy"]),
                       {"seed": ck.seed * 7919 + i, "n": per, "detail": b})
+    # ---- part B2: classes of one qualified name with different interfaces in one process
+    jobs = [(scenario_redefined, (ck.seed * 613 + i,), dict(strategy="fifo")) for i in range(8 if ck.tier == "quick" else 80)]
+    for i, res in enumerate(dsched.run_forked(jobs, nproc=16, wall_timeout=120)):
+        ck.note_case(("redefined", ck.seed, i), True)
+        ck.count("redefined:" + res["status"])
+        if res["status"] != "ok":
+            ck.report("oracle:redefined:%s" % res["status"], "redefined-class differential run failed: %s" % str(res.get("trace") or res.get("info"))[:400],
+                      {"redefined": True, "seed": ck.seed * 613 + i})
+            continue
+        ck.evaluations += res["obs"]["n"]
+        for b in res["obs"]["bad"][:2]:
+            ck.report("oracle:redefined:%s" % b["place"],
+                      "proxy differs from the direct object for a class whose qualified name was used before with another "
+                      "interface: attribute %r of version %d (methods %r): direct %s, %s proxy %s"
+                      % (b["name"], b["version"], b["methods"], b["direct"], b["place"], b["proxy"]),
+                      {"redefined": True, "seed": ck.seed * 613 + i, "detail": b})
     # ---- part C
     ns = 60 if ck.tier == "quick" else 1500
     jobs = [(scenario_concurrent, (ck.seed * 31 + i, 2 + i % 5, 3), dict(strategy="random" if i % 2 else "pct", seed=ck.seed * 977 + i))
@@ -700,6 +777,12 @@ def run(ck):
 
 
 def replay(rep):
+    if rep.get("case", {}).get("redefined"):
+        import dsched
+        import qmi.core.context, qmi.core.rpc, qmi.core.messaging, qmi.core.pubsub, qmi.core.task, qmi.core.config_defs  # noqa
+        res = dsched.run_forked([(scenario_redefined, (rep["case"]["seed"],), dict(strategy="fifo"))], nproc=1)[0]
+        print(res["status"], (res.get("obs") or {}).get("bad"))
+        return 1 if (res["status"] != "ok" or res["obs"]["bad"]) else 0
     c = rep["case"]
     import qmi.core.context, qmi.core.rpc, qmi.core.messaging, qmi.core.pubsub, qmi.core.task, qmi.core.config_defs  # noqa
     if "hop" in c:
